@@ -277,6 +277,16 @@ def index_ok(repo: Repo, world: World, f: Func, g: t.Any, n: ast.Subscript, gram
                         if (isinstance(op, ast.NotEq) and pol is False) or (isinstance(op, ast.Eq) and pol):
                             if 0 <= idx < k:
                                 return True, f"evaluated only when len({b}) == {k}"
+    # value ranges: 0 <= index < (lower bound of the length), from guards such as `if not v: raise`, `len(v) < n`,
+    # the exit condition of `while len(v) < n` growth loops
+    if isinstance(base, ast.Name):
+        res0 = world.analyse(f)
+        env0 = res0.env_at(n)
+        if env0:
+            ln0 = res0._call_iv(ast.Call(func=ast.Name(id="len", ctx=ast.Load()), args=[base], keywords=[]), env0)
+            ix0 = res0.eval(n.slice, env0)
+            if ln0.lo is not None and ix0.lo is not None and ix0.hi is not None and (0 <= ix0.lo and ix0.hi < ln0.lo or ix0.hi < 0 and -ln0.lo <= ix0.lo):
+                return True, f"index {ix0} within the length {ln0} established by the guards before it"
     # components of the SID string after the grammar matched
     if f.qual == "_security_descriptor.sid_to_bytes" and isinstance(base, ast.Name):
         res = world.analyse(f)
